@@ -340,3 +340,53 @@ impl<F: CircuitField> FromScratch<F> for VarLenSha256Gadget<F> {
         self.sha256chip.load_from_scratch(layouter)
     }
 }
+
+/// verif-hooks H13: public entries to the private padding / block-selection helpers of the
+/// variable-length SHA-256 gadget, so that an out-of-tree harness can run them on freely assigned
+/// chunk bytes and a freely assigned length and expose everything they return. Each function only
+/// forwards to the helper of the same name; none adds a constraint of its own.
+#[cfg(feature = "verif-hooks")]
+impl<F: CircuitField> VarLenSha256Gadget<F> {
+    /// Forwards to the private `final_block_len`.
+    pub fn verif_final_block_len<const M: usize>(
+        &self,
+        layouter: &mut impl Layouter<F>,
+        len: &AssignedNative<F>,
+    ) -> Result<(AssignedBounded<F>, AssignedBit<F>), Error> {
+        self.final_block_len::<M>(layouter, len)
+    }
+
+    /// Forwards to the private `merge_chunks`.
+    pub fn verif_merge_chunks<const L: usize>(
+        &self,
+        layouter: &mut impl Layouter<F>,
+        chunk_1: &[AssignedByte<F>; L],
+        chunk_2: &[AssignedByte<F>; L],
+        len: &AssignedNative<F>,
+    ) -> Result<[AssignedByte<F>; L], Error> {
+        self.merge_chunks(layouter, chunk_1, chunk_2, len)
+    }
+
+    /// Forwards to the private `insert_in_array`.
+    pub fn verif_insert_in_array<const L: usize>(
+        &self,
+        layouter: &mut impl Layouter<F>,
+        idx: &AssignedNative<F>,
+        array: &mut [AssignedByte<F>; L],
+        elem: AssignedByte<F>,
+    ) -> Result<(), Error> {
+        self.insert_in_array(layouter, idx, array, elem)
+    }
+
+    /// Forwards to the private `compute_padding`.
+    pub fn verif_compute_padding(
+        &self,
+        layouter: &mut impl Layouter<F>,
+        input_len: &AssignedNative<F>,
+        final_chunk_len: &AssignedBounded<F>,
+        final_chunk: &[AssignedByte<F>; 64],
+        extra_block: &AssignedBit<F>,
+    ) -> Result<[AssignedByte<F>; 2 * 64], Error> {
+        self.compute_padding(layouter, input_len, final_chunk_len, final_chunk, extra_block)
+    }
+}
